@@ -270,6 +270,55 @@ func runC05(e *core.Env, n int) {
 	}
 	pending = nil
 
+	// CloseSend issued from another goroutine while SendMsg is parked on a full stream
+	e.Cases("close-vs-blocked-send", e.N(16, 120), func(i int, r *rand.Rand) {
+		c := carriers[0]
+		kind := pick(r, ClientStream, Bidi)
+		sc := &Script{Kind: kind}
+		for k := 0; k < 2+r.Intn(3); k++ {
+			sc.Sender = append(sc.Sender, Op{Op: "send", Msg: &tpb.Message{Payload: []byte(fmt.Sprintf("cvs-%d-%d", i, k))}})
+		}
+		sc.Receiver = []Op{{Op: "gate", Gate: "sender-parked"}, {Op: "close"}, {Op: "close"}}
+		if kind == Bidi {
+			sc.Receiver = append(sc.Receiver, Op{Op: "recvall"})
+		} else {
+			sc.Receiver = append(sc.Receiver, Op{Op: "recv"})
+		}
+		sc.Handler = []Op{{Op: "gate", Gate: "go"}, {Op: "recvall"}, {Op: "send", Msg: &tpb.Message{Payload: []byte("reply")}}}
+		run := c.Svc.NewRun(sc, c.Name)
+		defer c.Svc.Forget(run)
+		done := make(chan struct{})
+		go func() {
+			run.Exec(c.CC, nil, 120*time.Second)
+			close(done)
+		}()
+		stalled, inSend := waitStalled(run, done)
+		if stalled && inSend {
+			e.Count("close_issued_while_send_parked", 1)
+		}
+		run.Release("sender-parked")
+		time.Sleep(time.Duration(1+r.Intn(4)) * time.Millisecond)
+		run.Release("go")
+		fin, stuck, dump := waitDoneOrStuck(done, 60*time.Second)
+		e.Eval(fmt.Sprintf("close-vs-blocked-send|%s|%d", kind, len(sc.Sender)), true)
+		if !fin {
+			if stuck {
+				e.Violate(c.Name+"/"+kind.String()+"/deadlock", "CloseSend racing a parked SendMsg: "+parkedSummary(dump), map[string]any{"events": run.Events(), "goroutines": trunc(dump, 20000)})
+			} else {
+				e.Inconclusive("C05 close-vs-blocked-send: watchdog")
+			}
+			forceEnd(run, done)
+			return
+		}
+		for _, ev := range run.Events() {
+			if ev.Pan != "" {
+				e.Violate(c.Name+"/"+kind.String()+"/panic/"+ev.Who+"."+ev.Op, "CloseSend issued while SendMsg was parked on a full stream: "+trunc(ev.Pan, 600), map[string]any{"events": run.Events()})
+				break
+			}
+		}
+		run.Cancel()
+	})
+
 	// the handler returns at once; the client keeps sending until io.EOF and never closes its send side,
 	// reads the final status and is NOT cancelled: nothing of the library may remain
 	e.Cases("early-return", e.N(12, 60), func(i int, r *rand.Rand) {
